@@ -1,0 +1,18 @@
+//go:build verif
+// +build verif
+
+package destination
+
+import "time"
+
+// VerifSpoolBacklog returns how many lines are waiting in the spool of a running destination:
+// the disk queue's depth plus what sits in the channels in front of it.
+func (dest *Destination) VerifSpoolBacklog() int64 {
+	if dest.spool == nil {
+		return 0
+	}
+	return dest.spool.queue.Depth() + int64(len(dest.spool.queueBuffer)) + int64(len(dest.spool.InRT))
+}
+
+// VerifSetKeepSafe sets how long conns created from now on retain written lines for replay.
+func VerifSetKeepSafe(d time.Duration) { keepsafe_keep_duration = d }
